@@ -204,3 +204,140 @@ package semver
 //@   requires compare(a, b) == 0
 //@   ensures compare(a, c) == compare(b, c)
 //@   property C01
+
+// PyPI (PEP 440): epoch, release numbers, rank of the attachment, then its
+// numbers. The local-version segment comparison (pep44CompareLocal) consumes
+// two strings in a loop that is outside the summarised subset; the laws below
+// are proved for versions without a local segment (that loop is then shown
+// unreachable), and the element comparison of local segments is proved
+// separately as a preorder.
+
+//@ opaque allDigits
+
+//@ lemma p440compareLocalElem.refl
+//@   vars a string
+//@   unfold p440compareLocalElem
+//@   ensures p440compareLocalElem(a, a) == 0
+//@   property C01
+
+//@ lemma p440compareLocalElem.antisym
+//@   vars a, b string
+//@   unfold p440compareLocalElem
+//@   ensures p440compareLocalElem(a, b) == -p440compareLocalElem(b, a)
+//@   property C01
+
+//@ lemma p440compareLocalElem.trans
+//@   vars a, b, c string
+//@   unfold p440compareLocalElem
+//@   requires p440compareLocalElem(a, b) <= 0 && p440compareLocalElem(b, c) <= 0
+//@   ensures p440compareLocalElem(a, c) <= 0
+//@   ensures imp(p440compareLocalElem(a, b) < 0 || p440compareLocalElem(b, c) < 0, p440compareLocalElem(a, c) < 0)
+//@   property C01
+
+//@ pred pypi(a *Version) = a != nil && a.sys == PyPI && hastype(a.ext, "*pep440Extension") &&
+//@      a.ext.(*pep440Extension) != nil && a.ext.(*pep440Extension).version == a &&
+//@      (a.ext.(*pep440Extension).ext == nil || a.ext.(*pep440Extension).ext.local == "")
+
+//@ lemma compare.pypi.range
+//@   vars a, b *Version
+//@   unfold compare (*pep440Extension).compare
+//@   requires pypi(a) && pypi(b)
+//@   ensures -1 <= compare(a, b) && compare(a, b) <= 1
+//@   property C01
+
+//@ lemma compare.pypi.refl
+//@   vars a *Version
+//@   unfold compare (*pep440Extension).compare
+//@   requires pypi(a)
+//@   ensures compare(a, a) == 0
+//@   property C01
+
+//@ lemma compare.pypi.antisym
+//@   vars a, b *Version
+//@   unfold compare (*pep440Extension).compare
+//@   requires pypi(a) && pypi(b)
+//@   ensures compare(a, b) == -compare(b, a)
+//@   property C01
+
+//@ lemma compare.pypi.trans
+//@   vars a, b, c *Version
+//@   unfold compare (*pep440Extension).compare
+//@   requires pypi(a) && pypi(b) && pypi(c)
+//@   requires compare(a, b) <= 0 && compare(b, c) <= 0
+//@   ensures compare(a, c) <= 0
+//@   property C01
+
+//@ lemma compare.pypi.congruence
+//@   vars a, b, c *Version
+//@   unfold compare (*pep440Extension).compare
+//@   requires pypi(a) && pypi(b) && pypi(c)
+//@   requires compare(a, b) == 0
+//@   ensures compare(a, c) == compare(b, c)
+//@   property C01
+
+// Maven. mvn(a) states what the parser (mavenExtension.init) produces: a
+// non-empty element list; the first element has no separator, the others have
+// '.' or '-'; every element is a number (value >= 0) or a qualifier (value 0),
+// never empty; "empty" elements (0, "", ga, final, release) were trimmed at
+// the end and before every '-'.
+
+//@ pred mvnElemOK(e mavenElement, first bool) =
+//@      e.str != "" && (fst(mavenCategory(e.str)) == versionNumeric || fst(mavenCategory(e.str)) == versionQualifier) &&
+//@      imp(first, e.sep == 0) && imp(!first, e.sep == '.' || e.sep == '-') &&
+//@      imp(fst(mavenCategory(e.str)) == versionNumeric, e.int >= 0) && imp(fst(mavenCategory(e.str)) == versionQualifier, e.int == 0)
+
+//@ pred mvn(a *Version) = a != nil && a.sys == Maven && hastype(a.ext, "*mavenExtension") &&
+//@      a.ext.(*mavenExtension) != nil && a.ext.(*mavenExtension).version == a &&
+//@      len(a.ext.(*mavenExtension).elems) >= 1 &&
+//@      forall(i, 0, len(a.ext.(*mavenExtension).elems), mvnElemOK(a.ext.(*mavenExtension).elems[i], i == 0)) &&
+//@      forall(i, 1, len(a.ext.(*mavenExtension).elems),
+//@          imp(i == len(a.ext.(*mavenExtension).elems) - 1 || a.ext.(*mavenExtension).elems[i+1].sep == '-',
+//@              !isEmptyMavenElem(a.ext.(*mavenExtension).elems[i].str)))
+
+//@ lemma compare.maven.refl
+//@   vars a *Version
+//@   unfold compare (*mavenExtension).compare
+//@   requires mvn(a)
+//@   ensures compare(a, a) == 0
+//@   property C01
+
+//@ lemma compare.maven.antisym
+//@   vars a, b *Version
+//@   unfold compare (*mavenExtension).compare
+//@   requires mvn(a) && mvn(b)
+//@   ensures imp(compare(a, b) < 0, compare(b, a) > 0) && imp(compare(a, b) > 0, compare(b, a) < 0) && imp(compare(a, b) == 0, compare(b, a) == 0)
+//@   property C01
+
+// Transitivity and congruence are stated on the domain the property names:
+// p >= 1 dot-separated numbers, then at most: one qualifier introduced by '-',
+// a number attached to it by '-', and -SNAPSHOT.
+
+//@ pred mvnNum(e mavenElement, sep byte) = fst(mavenCategory(e.str)) == versionNumeric && e.sep == sep
+//@ pred mvnQual(e mavenElement) = fst(mavenCategory(e.str)) == versionQualifier && e.sep == '-'
+//@ pred mvnD1(a *Version, p int) = mvn(a) && 1 <= p && p <= len(a.ext.(*mavenExtension).elems) &&
+//@      len(a.ext.(*mavenExtension).elems) <= p + 3 &&
+//@      forall(i, 1, p, mvnNum(a.ext.(*mavenExtension).elems[i], '.')) &&
+//@      fst(mavenCategory(a.ext.(*mavenExtension).elems[0].str)) == versionNumeric &&
+//@      imp(len(a.ext.(*mavenExtension).elems) >= p + 1, mvnQual(a.ext.(*mavenExtension).elems[p])) &&
+//@      imp(len(a.ext.(*mavenExtension).elems) == p + 2,
+//@          mvnNum(a.ext.(*mavenExtension).elems[p+1], '-') ||
+//@          (mvnQual(a.ext.(*mavenExtension).elems[p+1]) && a.ext.(*mavenExtension).elems[p+1].str == "snapshot")) &&
+//@      imp(len(a.ext.(*mavenExtension).elems) == p + 3,
+//@          mvnNum(a.ext.(*mavenExtension).elems[p+1], '-') &&
+//@          mvnQual(a.ext.(*mavenExtension).elems[p+2]) && a.ext.(*mavenExtension).elems[p+2].str == "snapshot")
+
+//@ lemma compare.maven.trans
+//@   vars a, b, c *Version; pa, pb, pc int
+//@   unfold compare (*mavenExtension).compare
+//@   requires mvnD1(a, pa) && mvnD1(b, pb) && mvnD1(c, pc)
+//@   requires compare(a, b) <= 0 && compare(b, c) <= 0
+//@   ensures compare(a, c) <= 0
+//@   property C01
+
+//@ lemma compare.maven.congruence
+//@   vars a, b, c *Version; pa, pb, pc int
+//@   unfold compare (*mavenExtension).compare
+//@   requires mvnD1(a, pa) && mvnD1(b, pb) && mvnD1(c, pc)
+//@   requires compare(a, b) == 0
+//@   ensures imp(compare(a, c) < 0, compare(b, c) < 0) && imp(compare(a, c) > 0, compare(b, c) > 0) && imp(compare(a, c) == 0, compare(b, c) == 0)
+//@   property C01
